@@ -41,6 +41,10 @@ pub enum SideOp {
     Set(Where, u8),
     Delete(Where),
     Range(Where, Vec<u8>),
+    /// ask the tree for the prover's membership path (a read; nothing may be remembered from it)
+    QueryPath,
+    /// removal-only batch on two other positions among the first 256 (indices travel as bytes)
+    BatchRemove(Where, Where),
 }
 
 #[derive(Clone, Copy, Debug, Serialize, Deserialize, PartialEq, Eq)]
@@ -89,6 +93,33 @@ fn apply_side(r: &mut RLN, m: &mut TreeModel, op: &SideOp, index: usize) -> Resu
                 m.delete(i);
             }
         }
+        SideOp::QueryPath => {
+            let mut out = vec![];
+            r.get_proof(index, &mut out).map_err(|e| e.to_string())?;
+        }
+        SideOp::BatchRemove(a, b) => {
+            let fix = |w: Where| {
+                let i = resolve(w, index) % 256;
+                if i == index { (i + 1) % 256 } else { i }
+            };
+            let (i, j) = (fix(*a), fix(*b));
+            if i == index || j == index {
+                return Ok(());
+            }
+            // two other members are registered (if those positions are still empty), the prover looks
+            // at its path, then both are removed in one batch
+            for (k, pos) in [i, j].into_iter().enumerate() {
+                if m.get(pos) == Some(Fr::from(0u64)) {
+                    let v = side_value(4 + k as u8);
+                    r.set_leaf(pos, Cursor::new(cr::enc_fr(&fr_to_big(&v)))).map_err(|e| e.to_string())?;
+                    m.set(pos, v);
+                }
+            }
+            let mut out = vec![];
+            r.get_proof(index, &mut out).map_err(|e| e.to_string())?;
+            r.atomic_operation(0, Cursor::new(cr::enc_vec_fr(&[])), Cursor::new(cr::enc_vec_u8(&[i as u8, j as u8]))).map_err(|e| e.to_string())?;
+            m.override_range(0, &[], &[i, j]);
+        }
         SideOp::Range(w, vs) => {
             // range writes stay in the first 4096 positions: the persistent backend's batch insert
             // visits every node left of the range's end inside each right subtree (seconds at 2^20)
@@ -129,6 +160,8 @@ fn side_op() -> BoxedStrategy<SideOp> {
         4 => (where_strategy(), 0u8..6).prop_map(|(w, v)| SideOp::Set(w, v)),
         2 => where_strategy().prop_map(SideOp::Delete),
         2 => (where_strategy(), proptest::collection::vec(0u8..6, 1..5)).prop_map(|(w, v)| SideOp::Range(w, v)),
+        2 => Just(SideOp::QueryPath),
+        2 => (where_strategy(), where_strategy()).prop_map(|(a, b)| SideOp::BatchRemove(a, b)),
     ]
     .boxed()
 }
@@ -165,6 +198,9 @@ pub fn build_world(c: &Case) -> Result<(RLN, TreeModel), String> {
         _ => set_leaf_big(&mut r, c.req.index, &rc)?,
     }
     m.set(c.req.index, rcf);
+    // a member typically fetches its path once after registration; that read must not influence
+    // anything that follows
+    apply_side(&mut r, &mut m, &SideOp::QueryPath, c.req.index)?;
     for op in &c.post {
         apply_side(&mut r, &mut m, op, c.req.index)?;
     }
@@ -322,7 +358,7 @@ impl Property for C01 {
         "C01"
     }
     fn rule(&self) -> String {
-        "(secret, leaf index, limit, message id, external nullifier, signal, tree history, entry point): field values boundary-weighted, index from {0, 1, 2^19-1, 2^19, 2^20-2, 2^20-1, right half, uniform}, limit from {1, 2, 100, 65535, 65536, uniform}, message id from {0, limit-1, uniform}, signals of length 0..12000 incl. Keccak block edges; 0..3 tree operations (set/delete/range write on the sibling, the other half, neighbours, first/last, uniform positions) before and after the rate commitment is placed (set_leaf, set_leaves_from or set_next_leaf); four entry points (tree state, caller-supplied witness, raw prove with independently assembled witness and values, externally computed witness vector from the reference generator). \
+        "(secret, leaf index, limit, message id, external nullifier, signal, tree history, entry point): field values boundary-weighted, index from {0, 1, 2^19-1, 2^19, 2^20-2, 2^20-1, right half, uniform}, limit from {1, 2, 100, 65535, 65536, uniform}, message id from {0, limit-1, uniform}, signals of length 0..12000 incl. Keccak block edges; 0..3 tree operations (set/delete/range write/removal-only batch on the sibling, the other half, neighbours, first/last, uniform positions, and reads of the prover's own membership path) before and after the rate commitment is placed (set_leaf, set_leaves_from or set_next_leaf); four entry points (tree state, caller-supplied witness, raw prove with independently assembled witness and values, externally computed witness vector from the reference generator). \
          Oracle: proving succeeds; verify, verify_rln_proof, verify_with_roots with [root], [r1,root,r2] and the empty set all accept; published values equal the reference formulas on the ideal tree. non-trivial = index >= 2^19, mid in {0, limit-1}, limit in {1, 2^16}, a boundary field value, or signal length 0 or >= 136; distinct by case content".into()
     }
     fn assumptions(&self) -> Vec<String> {
